@@ -175,6 +175,16 @@ theorem exec_inv : ∀ (f : Nat) (t : Task) (w : World), Inv w.c → RInv (exec 
               intro w1 v h1; exact h1
             · exact hw
           | nop => exact hw
+          | obf =>
+            try simp only
+            refine ite_inv (crashR_inv hw) ?_
+            refine andThen_inv (ih _ _ (by exact hw)) ?_
+            intro w1 v h1
+            split <;> exact h1
+          | ct o =>
+            try simp only
+            have h1 := ih (.ops self arg [o]) (emit { w with catching := w.catching + 1 } s!"ctb {oid self}") (by exact hw)
+            split <;> exact h1
         · intro w1 v h1
           split
           · exact h1
@@ -342,6 +352,17 @@ theorem exec_inv : ∀ (f : Nat) (t : Task) (w : World), Inv w.c → RInv (exec 
             · exact h1
           · intro w2 v2 h2
             refine ite_inv (by exact h2) (ih _ _ h2)
+    | objloop self rest acc =>
+      simp only [exec]
+      split
+      · exact hw
+      · refine ite_inv (crashR_inv hw) ?_
+        refine ite_inv (ih _ _ hw) ?_
+        refine ite_inv (crashR_inv hw) ?_
+        refine ite_inv (raise_inv hw) ?_
+        refine andThen_inv (ih _ _ hw) ?_
+        intro w1 v h1
+        exact ih _ _ h1
 
 theorem probe_inv {w : World} (hw : Inv w.c) : Inv (probe w).c := by
   unfold probe
